@@ -284,6 +284,15 @@ theorem healthy_history_once_each (c : CallCtx) (start : Nat) (sevs : List Int) 
     rw [healthy_call_once c start sev hh]
 
 
+/-- (16) Delivery is independent of the history: whatever calls came before (admitted or not, at
+    any severity), a call on healthy destinations delivers exactly what it delivers as the first
+    call of a fresh run, and the earlier output is left as it was. -/
+theorem call_independent_of_history (c : CallCtx) (start : Nat) (before : List Int) (sev : Int)
+    (hh : ∀ n, c.fails n = false) :
+    (runCalls c start (before ++ [sev])).1 = (runCalls c start before).1 ++ [(logCall c 0 sev).1] := by
+  rw [C13.history_splits, (healthy_history_once_each c _ [sev] hh).1]
+  rfl
+
 -- non-vacuity: an Info logger with healthy destinations 5 (normal) and 6 (error); the history
 -- Info, Debug, Trace, Warn yields one record each for the admitted calls and none for the others
 example :
